@@ -206,7 +206,7 @@ impl Message {
         ensures r is Ok ==> bmv(&r->Ok_0).len() >= 12 && bmv(&r->Ok_0)[0] == (self.header.id / 256) as u8 && bmv(&r->Ok_0)[1] == (self.header.id % 256) as u8
                 && bmv(&r->Ok_0)[2] == header_flags1(self.header) && bmv(&r->Ok_0)[3] == header_flags2(self.header),
             self.questions@.len() <= 0xffff && self.answers@.len() == 0 && self.authority@.len() == 0 && self.additional@.len() == 0 ==> r is Ok,
-            r is Ok <==> serialisable(*self),
+            r is Ok <==> serialisable(*self), r is Ok ==> bmv(&r->Ok_0).len() == wire_len(*self),
     { unimplemented!() }
 }
 // R9: the channel on which a task hands its finished reply to the UDP sender loop (tokio mpsc::Sender), recorded; the Prometheus timer
@@ -242,10 +242,15 @@ pub open spec fn reply_for(m: Message, b: Seq<u8>) -> bool {
 }
 // the message can be encoded (names compressible, counts within 16 bits): decided by Message::to_octets (unit wire_codec)
 pub uninterp spec fn serialisable(m: Message) -> bool;
+// the length of the message's encoding (when it has one)
+pub uninterp spec fn wire_len(m: Message) -> int;
 // what one reply looks like on the UDP socket: one datagram to the asker's address, a whole header at least and 512 octets at most,
-// starting with the reply's ID, QR as in the reply, TC set exactly when the reply had to be cut
+// the first 512 octets of the reply's encoding at most, starting with the reply's ID, QR as in the reply, TC set exactly when the
+// encoding is longer than that
 pub open spec fn udp_reply_ok(d: (Seq<u8>, Option<SocketAddr>), m: Message, peer: SocketAddr) -> bool {
     &&& d.1 == Some(peer) &&& 12 <= d.0.len() <= 512
+    &&& d.0.len() == (if wire_len(m) > 512 { 512 } else { wire_len(m) })
+    &&& tc_set(d.0[2]) == (wire_len(m) > 512)
     &&& be16(d.0[0], d.0[1]) == m.header.id
     &&& (d.0[2] & 0x80 != 0) == m.header.is_response
     &&& d.0[3] & 0x0f == spec_rcode_to(m.header.rcode) & 0x0f
